@@ -211,8 +211,8 @@ static int vec_find(const unsigned char *r, const hmsg_t *m, int dtls, vecf_t *v
 }
 #undef VADD
 
-enum { VR_GROW1 = 0, VR_GROW16, VR_GROW200, VR_SHRINK1, VR_EMPTY, VR_DOUBLE, VR_X8, VR_N };
-static const char *vrname[VR_N] = { "grow+1", "grow+16", "grow+200", "shrink-1", "empty", "doubled", "content-x8" };
+enum { VR_GROW1 = 0, VR_GROW16, VR_GROW200, VR_SHRINK1, VR_EMPTY, VR_DOUBLE, VR_X8, VR_GROW8000, VR_N };
+static const char *vrname[VR_N] = { "grow+1", "grow+16", "grow+200", "shrink-1", "empty", "doubled", "content-x8", "grow+8000" };
 
 /* resize vector k of message mi of the record in buf (length *len, capacity cap); all enclosing lengths are fixed up.
  * returns 1 if applied */
@@ -236,6 +236,7 @@ static int vec_resize(unsigned char *buf, int *len, int cap, int dtls, int mi, i
     case VR_GROW1: delta = 1; break;
     case VR_GROW16: delta = 16; break;
     case VR_GROW200: delta = 200; break;
+    case VR_GROW8000: delta = 8000; break;   /* larger than ssl_t: a list copied into a fixed array INSIDE the session leaves the heap block */
     case VR_SHRINK1: delta = -1; break;
     case VR_EMPTY: delta = -vl; break;
     case VR_X8: delta = 7 * vl; break;
